@@ -555,7 +555,7 @@ def _ntag(ck, rng, T, add, rb, N):
         for (_, _, r) in air.trace[x0:x0 + 3]:
             if r is not None:
                 return hx(r) if len(r) else None
-        return "e0"
+        return "E0"
 
     for i in range(600 if T else 120):
         prod = products[i % len(products)]
@@ -628,7 +628,7 @@ def _ntag(ck, rng, T, add, rb, N):
             rep = {"product": prod, "tag_pwd": pwd.hex(), "tag_pack": pack.hex(), "password": pw.hex(), "modification": kind, "arrived": got}
             if real.startswith("exc"):
                 ck.fail("auth-internal-exception", "NTAG21x authenticate, response %s -> %s" % (kind, real), rep)
-            arrived_ok = got is not None and got != "e0" and got != "-" and bytes.fromhex(got) == pw[4:6]
+            arrived_ok = got is not None and got != "E0" and got != "-" and bytes.fromhex(got) == pw[4:6]
             if (real == "ok true") != arrived_ok:
                 ck.fail("ntag-pack-not-compared", "NTAG21x authenticate(%s): arrived %s, verdict %s" % (pw.hex(), got, real), rep)
             if got is None:
